@@ -32,7 +32,7 @@ CONSTANTS RootUsesMenu,   \* menu (a sequence) of `uses` lists: sequences of [f,
 \* input kinds: "class"/"name" (required), "opt" (InputTaskParameter with a default), "pattern" (~regex, own namespace)
 NoGrp == <<>>
 Ref(g, n) == [ns |-> <<>>, grp |-> g, name |-> n]
-Classes == {"a", "b", "c", "d", "trainx", "ge", "f", "pat", "cy1", "cy2", "z", "w", "bsub"}
+Classes == {"a", "b", "c", "d", "trainx", "ge", "f", "pat", "cy1", "cy2", "z", "w", "bsub", "both", "both2"}
 Slug == [c \in Classes |->
   CASE c = "a" -> Ref(NoGrp, "a")            [] c = "b" -> Ref(NoGrp, "b")
     [] c = "c" -> Ref(NoGrp, "c")            [] c = "d" -> Ref(NoGrp, "d")
@@ -40,6 +40,7 @@ Slug == [c \in Classes |->
     [] c = "f" -> Ref(NoGrp, "f")            [] c = "pat" -> Ref(NoGrp, "pat")
     [] c = "cy1" -> Ref(NoGrp, "cy1")        [] c = "cy2" -> Ref(NoGrp, "cy2")
     [] c = "z" -> Ref(NoGrp, "z")            [] c = "w" -> Ref(<<"g">>, "a")
+    [] c = "both" -> Ref(NoGrp, "both")      [] c = "both2" -> Ref(NoGrp, "both2")
     [] c = "bsub" -> Ref(NoGrp, "bsub")]      \* a class DERIVED from b with a Meta of its own: its own name, inputs, no parameters
 Inputs == [c \in Classes |->
   CASE c = "b" -> <<[kind |-> "class", ref |-> Ref(NoGrp, "a")]>>
@@ -48,6 +49,9 @@ Inputs == [c \in Classes |->
     [] c = "f" -> <<[kind |-> "name", ref |-> Ref(NoGrp, "e")]>>
     [] c = "pat" -> <<[kind |-> "pattern", ref |-> Ref(NoGrp, "a")]>>    \* ~(.*:)?a : every task named a, any group
     [] c = "bsub" -> <<[kind |-> "name", ref |-> Ref(NoGrp, "a")]>>
+    \* a task and its grouped namesake are two inputs of one dependant, declared in either order
+    [] c = "both"  -> <<[kind |-> "name", ref |-> Ref(<<"g">>, "a")], [kind |-> "name", ref |-> Ref(NoGrp, "a")]>>
+    [] c = "both2" -> <<[kind |-> "name", ref |-> Ref(NoGrp, "a")], [kind |-> "name", ref |-> Ref(<<"g">>, "a")]>>
     [] c = "cy1" -> <<[kind |-> "name", ref |-> Ref(NoGrp, "cy2")]>>
     [] c = "cy2" -> <<[kind |-> "name", ref |-> Ref(NoGrp, "cy1")]>>
     [] OTHER -> <<>>]
